@@ -1300,6 +1300,8 @@ func c05D1Registered(c *Ctx, tr *c05Tracer, entry *ssa.Function, bx c05Site, pGr
 		cands = append(cands, cand{c05CalleeOf(up), ctx})
 	}
 	n := 0
+	var regCalls []*ssa.Call
+	var regCons []string
 	for _, cd := range cands {
 		for _, b := range cd.fn.Blocks {
 			for _, in := range b.Instrs {
@@ -1345,20 +1347,37 @@ func c05D1Registered(c *Ctx, tr *c05Tracer, entry *ssa.Function, bx c05Site, pGr
 						"the chain key must be registered for the group parameter of "+en+" but is registered for: "+c05Describe(gro))
 				}
 				if cd.fn == entry {
-					ev := errVerdict(call)
-					okc := ev != nil
-					why := "result discarded"
-					if okc {
-						by := bypassReturns(entry, edgesOfVerdict(ev).Accept, []ssa.Value{ev})
-						okc = len(by) == 0
-						why = "success return bypassing the registration at " + describeReturns(c, by)
-					}
-					c.check(okc, "D1", cons+".always", posOf(call),
-						"every success return of "+en+" follows a successful registration",
-						en+" can succeed without registering the opened chain key: "+why)
+					regCalls = append(regCalls, call)
+					regCons = append(regCons, cons)
 				}
 			}
 		}
+	}
+	// every success return of the entry follows ONE of the registering calls (the registration
+	// may be one of several functions chosen by a test): the accepting edges are pooled
+	var pool []edge
+	var verdicts []ssa.Value
+	for _, call := range regCalls {
+		if ev := errVerdict(call); ev != nil {
+			pool = append(pool, edgesOfVerdict(ev).Accept...)
+			verdicts = append(verdicts, ev)
+		}
+	}
+	for i, call := range regCalls {
+		ev := errVerdict(call)
+		okc := ev != nil
+		why := "result discarded"
+		if okc {
+			by := bypassReturns(entry, pool, verdicts)
+			okc = len(by) == 0
+			why = "success return bypassing the registration at " + describeReturns(c, by)
+		}
+		msg := "every success return of " + en + " follows a successful registration"
+		if len(regCalls) > 1 {
+			msg = fmt.Sprintf("every success return of %s follows one of its %d registering calls", en, len(regCalls))
+		}
+		c.check(okc, "D1", regCons[i]+".always", posOf(call), msg,
+			en+" can succeed without registering the opened chain key: "+why)
 	}
 	if n == 0 {
 		c.fail("D1", en+"+registration", entry.Pos(), "%s never hands a *DeviceChainKey on to a registering function: an opened announcement has no effect", en)
